@@ -74,6 +74,20 @@ PROPS = {
                       "every BeginBlock supply delta = Mint event - bank burn events and supply = sum of all balances (full bank iteration); every "
                       "delivered message keeps the supply and the tracked accounts' total.",
     },
+    "C10": {
+        "title": "Emission and distribution can never halt the chain",
+        "model": "Minter.v mint_rec / begin_block; MinterWalk.v run_blocks; Distributor.v start_distribution, payout_all, dist_begin_block; Genesis.v import",
+        "runs": [app(120, 5000), minter(100, 4000), distr("", 200, 8000), distr("faults", 80, 3000)],
+        "preds": ["C10."],
+        "rule": APP_RULE + " | " + MINTER_RULE + " | " + DISTR_RULE + "; every BeginBlock / EndBlock runs under recover(); the application-mode histories include genesis export/import with further blocks on the restored application",
+        "partial": ["parameter-update sequences in application mode are exercised by C13's generator at keeper level; Int / Dec overflow panics of the SDK (amounts beyond 2^256) are outside the model and excluded by the property's magnitude bound"],
+        "level_text": "Coq theorems: for every validated schedule every strictly increasing sequence of block times is processed without error or "
+                      "panic from the genesis state and from every state BeginBlock produces (induction over periods and blocks); Mint errs only if "
+                      "a period of the hand-over chain is missing, which UpdateParams refuses to create; one StartDistributionProcess with validated "
+                      "shares and states that all carry an account never panics (no DecCoins.Sub goes negative: invariant on the running remainder), "
+                      "nor do the payouts under any transfer failures; genesis import restores burn-state accounts (F4). K1 refuted by a computed "
+                      "two-block witness. The real BeginBlock/EndBlock run under recover() in application and module mode incl. after export/import.",
+    },
     "C11": {
         "title": "Replicas computing the same blocks reach the same state hash",
         "model": "Validate.v (map-order independence of the validation decision); all model transitions are Gallina functions",
